@@ -479,6 +479,9 @@ func (c *Ctx) lockReleasedRule(rule string, funcs []*ssa.Function) {
 	r := c.R
 	n := 0
 	for _, fn := range funcs {
+		if _, _, isW := c.lockWrapper(fn); isW {
+			continue // hands the release to its caller; the call sites are checked instead
+		}
 		cnt := map[string]int{}
 		funcInstrs(fn, func(in ssa.Instruction) {
 			op, ok := c.lockOpOf(in)
@@ -715,7 +718,7 @@ func runC14(c *Ctx) {
 	}
 	muVar := c.FieldVar(c.State, "stateTracker", "mu")
 	r.Anchor("R1", "stateTracker.mu", muVar != nil)
-	const lock = "state.stateTracker.mu"
+	lock := c.lockFieldName(c.State, "stateTracker")
 	ls := c.ComputeLocksets(funcs)
 	nAcc := 0
 	for _, fn := range funcs {
